@@ -115,7 +115,7 @@ func c10FaultKinds() []c10Fault {
 		out = append(out, c10Fault{Kind: "status", Status: s})
 	}
 	out = append(out, c10Fault{Kind: "close-before"}, c10Fault{Kind: "close-after-proc"}, c10Fault{Kind: "close-after-reply"})
-	for _, b := range []int{1, 23, 24, 25, -1} {
+	for _, b := range []int{1, 23, 24, 25, 28, 32, -1} { // 28 / 32: right behind the extras of a get / gat and of a gete reply
 		out = append(out, c10Fault{Kind: "close-mid-reply", Bytes: b})
 	}
 	return out
